@@ -152,7 +152,7 @@ theorem invTok_step (s : St) (ev : Ev) (s' : St) (hi : InvTok s) (h : step s ev 
     · simp at h
     · split at h
       · simp only [Option.some.injEq] at h; subst h
-        simp_all [InvTok, tokens]
+        exact ⟨hf, ht⟩
       · simp at h
   | post a =>
     simp only [step] at h
@@ -412,10 +412,8 @@ theorem invWake_step (s : St) (ev : Ev) (s' : St) (hi : InvTok s) (hw : InvWake 
     split at h
     · simp at h
     · split at h
-      · rename_i todoR todoW hl
-        have hwk : waker ∈ s.readers := hw1 (by simp [hl]) (by simp [hl])
-        simp only [Option.some.injEq] at h; subst h
-        exact ⟨fun _ _ => hwk, fun a ha => hw2 a ha⟩
+      · simp only [Option.some.injEq] at h; subst h
+        exact ⟨hw1, hw2⟩
       · simp at h
   | post a =>
     simp only [step] at h
@@ -601,7 +599,7 @@ theorem invClose_step (s : St) (ev : Ev) (s' : St) (hi : InvClose s) (h : step s
     split at h
     · simp at h
     · split at h
-      · simp only [Option.some.injEq] at h; subst h; simp [InvClose]
+      · simp only [Option.some.injEq] at h; subst h; exact hi
       · simp at h
   | post a =>
     simp only [step] at h
@@ -880,21 +878,11 @@ theorem callbacks_on_loop_thread (s s' : St) (isW : Bool) (fd : Fd) (h : step s 
     · rename_i a b hl; exact ⟨a, b, hl⟩
     · simp at h
 
-/-- a raising callback does not lose the token: the `finally` clause of `_handle_select` can (and does) post the
-next select at once -/
-theorem raise_still_posts (s : St) (a b : List Fd) (hl : s.lpc = .handling a b) (hp : s.pendingWake = false)
-    (hr : Reach s) :
-    ∃ s1 s2, step s .raised = some s1 ∧ step s1 (.post (current s1)) = some s2 ∧
-      s2.args = some (current s) ∧ s2.lpc = .running ∧ s2.failed = false := by
-  have hf := assert_never_fails s hr
-  have hargs := (post_finds_args_empty s hr a b hl).1
-  let s1 : St := { s with lpc := .handling [] [] }
-  let s2 : St := { s1 with lpc := .running, args := some (current s1), failed := s1.failed || s1.args.isSome }
-  refine ⟨s1, s2, ?_, ?_, ?_, rfl, ?_⟩
-  · simp [step, hl, hp, s1]
-  · simp [step, hp, skipUnreg, s1, s2]
-  · simp [s1, s2, current]
-  · simp [s1, s2, hf, hargs]
+/-- a raising callback neither loses the token nor skips the rest of the round: `_handle_event` reports it to the
+loop's exception handler and `_handle_select` carries on exactly where it was (models the fix) -/
+theorem raise_keeps_round (s : St) (a b : List Fd) (hl : s.lpc = .handling a b) (hp : s.pendingWake = false) :
+    step s .raised = some s := by
+  simp [step, hl, hp]
 
 /-! ### close terminates -/
 def sRank : SPc → Nat
